@@ -3,6 +3,7 @@ Lemmas about the taint / side-effect model (Model/Taint.lean): reachability, the
 the sink set covers, and why a claimed variable reaches no sink.
 -/
 import Circomspect.Model.Taint
+import Circomspect.Lemmas.IncludeLemmas
 namespace Circomspect.Taint
 
 inductive Reach (es : List (V × V)) (x : V) : V → Prop
@@ -574,5 +575,67 @@ theorem multiStepTaint_sound (es : List (V × V)) (fuel : Nat) (x : V) (r : List
   · cases hu
   · have : u = x := List.mem_singleton.mp hu
     subst this; exact Reach.refl
+
+
+def unseen (U result : List V) : Nat := (U.filter (fun x => !result.contains x)).length
+
+/-- the loop exits through its subset test as soon as the budget exceeds the number of variables not
+    yet in the result: every other iteration adds a new variable of the (finite) universe `U` -/
+theorem closeLoop_terminates (es : List (V × V)) (U : List V) (hU : ∀ a b, (a, b) ∈ es → b ∈ U) :
+    ∀ (k : Nat) (update result : List V), (∀ u, u ∈ update → u ∈ U) → unseen U result < k →
+      ∃ r, closeLoop es k update result = some r := by
+  intro k
+  induction k with
+  | zero => intro _ _ _ h; omega
+  | succ k ih =>
+    intro update result hup hm
+    unfold closeLoop
+    split
+    · exact ⟨result, rfl⟩
+    · rename_i hs
+      -- some element of update is new
+      have : ∃ u, u ∈ update ∧ u ∉ result := by
+        have hh : ¬ (∀ x, x ∈ update → x ∈ result) := fun h => hs ((subset_spec update result).mpr h)
+        cases hex : update.find? (fun x => !result.contains x) with
+        | none =>
+          exfalso
+          apply hh
+          intro x hx
+          have := List.find?_eq_none.mp hex x hx
+          simpa using this
+        | some u =>
+          have h1 := List.mem_of_find?_eq_some hex
+          have h2 := List.find?_some hex
+          exact ⟨u, h1, by simpa using h2⟩
+      obtain ⟨u, hu, hur⟩ := this
+      apply ih
+      · intro v hv
+        obtain ⟨w, _, hw⟩ := List.mem_flatMap.mp hv
+        exact hU w v ((mem_succs es w v).mp hw)
+      · have hlt : unseen U (result ++ update) < unseen U result := by
+          unfold unseen
+          apply Includes.filter_length_lt _ _ _ u
+          · simpa using hur
+          · simp [hu]
+          · exact hup u hu
+          · intro x hx
+            simp only [List.contains_eq_mem, List.mem_append, Bool.not_eq_true', decide_eq_false_iff_not, not_or] at hx
+            simpa using hx.1
+        omega
+
+/-- `multi_step_taint` terminates within |U| + 1 iterations, U = the start variable and all edge targets -/
+theorem multiStepTaint_terminates (es : List (V × V)) (x : V) :
+    ∃ r, multiStepTaint es ((x :: es.map (·.2)).length + 1) x = some r := by
+  unfold multiStepTaint
+  apply closeLoop_terminates es (x :: es.map (·.2))
+  · intro a b hab
+    exact List.mem_cons_of_mem _ (List.mem_map.mpr ⟨(a, b), hab, rfl⟩)
+  · intro u hu
+    have : u = x := List.mem_singleton.mp hu
+    subst this
+    exact List.mem_cons_self
+  · unfold unseen
+    have := List.length_filter_le (fun y => !([] : List V).contains y) (x :: es.map (·.2))
+    omega
 
 end Circomspect.Taint
